@@ -128,3 +128,9 @@ pub fn diff_window(real: &[u8], model: &[u8]) -> String {
         show(&model[i..(i + 90).min(model.len())])
     )
 }
+
+/// Root of the comrak checkout under test: /repo, or $VERIF_REPO when a check is pointed at a
+/// scratch worktree (used only for seeded-change experiments; registered commands never set it).
+pub fn repo_root() -> String {
+    std::env::var("VERIF_REPO").unwrap_or_else(|_| "/repo".to_string())
+}
